@@ -9,6 +9,7 @@ package main
 import (
 	"fmt"
 	"io"
+	"iter"
 	"sort"
 	"strings"
 
@@ -62,7 +63,88 @@ func fnv64(s string) uint64 {
 	return h
 }
 
+// ---------------------------------------------------------------- restartable iterators
+
+// reiter1 keeps ONE iterator value and runs it several times: to the end, with an early exit, nested inside itself
+// and around a second iterator (of the same container or of another private one), and to the end again.
+// iter.Seq values are restartable; every complete run must yield the same multiset of members.
+// The result starts with INCONSISTENT when two complete runs of the same value differ.
+func reiter1[T any](seq iter.Seq[T], other iter.Seq[T], key func(T) string) string {
+	full := func() string {
+		var xs []string
+		for x := range seq {
+			xs = append(xs, key(x))
+		}
+		sort.Strings(xs)
+		return strings.Join(xs, ",")
+	}
+	m1 := full()
+	n := 0
+	for range seq { // early exit
+		if n++; n == 2 {
+			break
+		}
+	}
+	m2 := full()
+	self, cross := 0, 0
+	for range seq { // nested in itself
+		k := 0
+		for range seq {
+			self++
+			if k++; k == 3 {
+				break
+			}
+		}
+	}
+	var inner []string
+	for range seq { // around another iterator value, which is itself run repeatedly
+		var ys []string
+		for y := range other {
+			ys = append(ys, key(y))
+			cross++
+		}
+		sort.Strings(ys)
+		inner = append(inner, strings.Join(ys, ","))
+	}
+	for i := 1; i < len(inner); i++ {
+		if inner[i] != inner[0] {
+			return "INCONSISTENT:inner run " + fmt.Sprint(i) + " of a restarted iterator: " + inner[i] + " vs " + inner[0]
+		}
+	}
+	m3 := full()
+	if m1 != m2 || m2 != m3 {
+		return "INCONSISTENT:runs of one iterator value differ: " + m1 + " / " + m2 + " / " + m3
+	}
+	return fmt.Sprintf("%s#%d#%d", m1, self, cross)
+}
+
+func reiter2[K, V any](seq iter.Seq2[K, V], other iter.Seq2[K, V], key func(K, V) string) string {
+	one := func(s iter.Seq2[K, V]) iter.Seq[string] {
+		return func(yield func(string) bool) {
+			for k, v := range s {
+				if !yield(key(k, v)) {
+					return
+				}
+			}
+		}
+	}
+	return reiter1(one(seq), one(other), func(x string) string { return x })
+}
+
+// inconsistent reports the first INCONSISTENT marker among the parts of a digest (the workload then returns it as is)
+func inconsistent(parts []string) (string, bool) {
+	for _, p := range parts {
+		if strings.HasPrefix(p, "INCONSISTENT:") {
+			return p, true
+		}
+	}
+	return "", false
+}
+
 func dig(parts ...string) string {
+	if bad, ok := inconsistent(parts); ok {
+		return bad
+	}
 	s := strings.Join(parts, "\x1f")
 	return fmt.Sprintf("%016x/%d", fnv64(s), len(s))
 }
@@ -104,6 +186,11 @@ func wlHashTables(inst int) string {
 			sort.Strings(kv)
 			out = append(out, fmt.Sprintf("t%d:%d:%s", ti, t.Size(), strings.Join(kv, ",")))
 		}
+		itA, itB := t.All(), ints[(ti+1)%len(ints)].All() // iterator VALUES, kept and restarted
+		kvf := func(k int, v string) string { return fmt.Sprintf("%d=%s", k, v) }
+		out = append(out, "re:"+reiter2(itA, itB, kvf))
+		_, _ = t.Get(3)
+		out = append(out, "re:"+reiter2(itA, t.All(), kvf), "re:"+reiter2(itB, itA, kvf))
 		evn := func(k int, _ string) bool { return k%2 == 0 }
 		c := t.SelectMatch(evn)
 		pa, pb := t.PartitionMatch(evn)
@@ -150,6 +237,11 @@ func wlOrderedTables(inst int) string {
 		mn, _, _ := t.Min()
 		mx, _, _ := t.Max()
 		out = append(out, fmt.Sprintf("o%d:%d:%d:%d:%d:%s", ti, t.Size(), mn, mx, t.Rank(150), strings.Join(ks, ",")))
+		oit := t.All()
+		okv := func(k int, v string) string { return fmt.Sprintf("%d=%s", k, v) }
+		out = append(out, "re:"+reiter2(oit, ts[(ti+1)%len(ts)].All(), okv))
+		_ = t.Rank(10)
+		out = append(out, "re:"+reiter2(oit, oit, okv))
 		// every query family
 		fl, _, fok := t.Floor(150)
 		ce, _, cok := t.Ceiling(150)
@@ -200,9 +292,18 @@ func wlSets(inst int) string {
 		}
 		out = append(out, fmt.Sprintf("m%d", mi), canon(a), canon(b), canon(a.Union(b)), canon(a.Intersection(b)),
 			canon(a.Difference(b)), fmt.Sprint(a.IsSubset(b), a.Union(b).IsSuperset(a), a.Equal(a.Clone())))
+		ia, ib := a.All(), b.All() // iterator VALUES, kept and restarted (before and after other operations)
+		ikey := func(x int) string { return fmt.Sprint(x) }
+		out = append(out, "re:"+reiter1(ia, ib, ikey))
+		_ = a.Contains(3)
+		u2 := a.Union(b)
+		out = append(out, "re:"+reiter1(ib, a.All(), ikey), "re:"+reiter1(ia, ia, ikey), "re:"+reiter1(u2.All(), ia, ikey))
 		small := m(1+inst, 2+inst, 3+inst, 4+inst)
 		var ps []string
-		for sub := range set.Powerset(small).All() {
+		pw := set.Powerset(small)
+		pit := pw.All()
+		out = append(out, "re:"+reiter1(pit, pw.All(), canon))
+		for sub := range pit {
 			ps = append(ps, canon(sub))
 		}
 		sort.Strings(ps)
@@ -270,6 +371,11 @@ func wlTries(inst int) string {
 			kv = append(kv, fmt.Sprintf("%s=%d", k, v))
 		}
 		sort.Strings(kv)
+		tit := t.All()
+		tkv := func(k string, v int) string { return fmt.Sprintf("%s=%d", k, v) }
+		out = append(out, "re:"+reiter2(tit, ts[(ti+1)%len(ts)].All(), tkv))
+		_ = t.Rank("b")
+		out = append(out, "re:"+reiter2(tit, tit, tkv))
 		mn, _, _ := t.Min()
 		mx, _, _ := t.Max()
 		g, ok := t.Get("ab")
@@ -596,6 +702,14 @@ func wlFirstFollow(inst int) string {
 		for p := range g.Productions.All() {
 			_ = first(p.Body)
 		}
+		tit, nit, pit := g.Terminals.All(), g.NonTerminals.All(), g.Productions.All()
+		out = append(out,
+			"re:"+reiter1(tit, g.Terminals.All(), func(t grammar.Terminal) string { return string(t) }),
+			"re:"+reiter1(nit, nit, func(n grammar.NonTerminal) string { return string(n) }),
+			"re:"+reiter1(pit, g.Productions.All(), func(p *grammar.Production) string { return p.String() }),
+			"re:"+reiter2(g.Productions.AllByHead(), g.Productions.AllByHead(), func(h grammar.NonTerminal, ps set.Set[*grammar.Production]) string {
+				return fmt.Sprintf("%s:%d", h, ps.Size())
+			}))
 		var nl []string
 		for n := range g.NullableNonTerminals().All() {
 			nl = append(nl, string(n))
@@ -813,6 +927,16 @@ func wlAutomata(inst int) string {
 		cc := n.Concat(n2)
 		return fmt.Sprint(cc.Accept(syms("abbabb")), cc.Accept(syms("abb")), len(cc.States()), len(cc.Symbols()))
 	}))
+	stSet := automata.NewStates(so, so+3, so+5, so+9)
+	sit, ntr, dtr := stSet.All(), n.Transitions(), d.Transitions()
+	out = append(out,
+		"re:"+reiter1(sit, automata.NewStates(so+1, so+2).All(), func(s automata.State) string { return fmt.Sprint(int(s - so)) }),
+		"re:"+reiter1(ntr, ntr, func(t *automata.Transition[[]automata.State]) string {
+			return fmt.Sprint(int(t.State-so), int(t.Symbol), len(t.Next))
+		}),
+		"re:"+reiter1(dtr, d.Transitions(), func(t *automata.Transition[automata.State]) string {
+			return fmt.Sprint(int(t.State), int(t.Symbol), int(t.Next))
+		}))
 	nt, dt := 0, 0
 	for range n.Transitions() {
 		nt++
@@ -894,6 +1018,9 @@ func wlHelpers(inst int) string {
 	}
 	out = append(out, strings.Join(hs, ","))
 	out = append(out, fmt.Sprint(aSt.Size(), aSy.Size(), lSt.Size(), gT.Size(), gN.Size(), gS.Size(), gW.Size(), gP.Size()))
+	hit := lSt.All()
+	hkv := func(k lr.State, v int) string { return fmt.Sprintf("%d=%d", k, v) }
+	out = append(out, "re:"+reiter2(hit, lSt.All(), hkv), "re:"+reiter2(hit, hit, hkv))
 	var ks []string
 	for k, v := range lSt.All() {
 		ks = append(ks, fmt.Sprintf("%d=%d", k, v))
